@@ -318,7 +318,9 @@ def crash_summary(err):
     if m:
         loc = re.search(r"([a-z0-9_]+\.c):(\d+)", err)
         return "ubsan:%s@%s" % (m.group(1)[:60].replace(" ", "_"), loc.group(0) if loc else "?")
-    return "exit:" + (err.strip().splitlines()[-1][:80].replace(" ", "_") if err.strip() else "-")
+    if not err.strip():
+        return "trap(SIGILL=local-bounds)/signal"
+    return "exit:" + err.strip().splitlines()[-1][:80].replace(" ", "_")
 
 
 # ---------------------------------------------------------------- findings, replays, evidence
